@@ -7,6 +7,7 @@ import (
 	"strings"
 	"time"
 
+	"github.com/cosmos/btcutil/bech32"
 	"github.com/cosmos/cosmos-sdk/codec"
 	sdk "github.com/cosmos/cosmos-sdk/types"
 
@@ -52,6 +53,29 @@ func (m c18Model) clone() c18Model {
 
 var c18Who = []string{"A", "B", "C"}
 
+// c18LongAddr builds a valid 32-byte account address whose bech32 spelling begins with the complete spelling (data and
+// checksum characters) of the given 20-byte address: two different recipients, one a string prefix of the other.
+func c18LongAddr(short string) string {
+	const charset = "qpzry9x8gf2tvdw0s3jn54khce6mua7l"
+	i := strings.LastIndex(short, "1")
+	var groups []byte
+	for _, ch := range short[i+1:] {
+		groups = append(groups, byte(strings.IndexRune(charset, ch)))
+	}
+	for len(groups) < 52 { // 52 groups of 5 bits = 32 bytes and 4 zero padding bits
+		groups = append(groups, 0)
+	}
+	bz, err := bech32.ConvertBits(groups, 5, 8, false)
+	if err != nil || len(bz) != 32 {
+		panic(fmt.Sprintf("c18LongAddr: %v (%d bytes)", err, len(bz)))
+	}
+	long := sdk.AccAddress(bz).String()
+	if !strings.HasPrefix(long, short) || long == short {
+		panic("c18LongAddr: " + long + " does not extend " + short)
+	}
+	return long
+}
+
 func (C18) ID() string   { return "C18" }
 func (C18) Name() string { return "C18/inbox" }
 func (C18) Config() world.Config {
@@ -68,7 +92,7 @@ func (C18) Config() world.Config {
 func (C18) Stores() []string { return []string{notiftypes.StoreKey, "rns"} }
 func (C18) Init(env world.Env) mc.Model {
 	m := c18Model{NameOwner: "B", Inbox: map[string]map[string][]string{}, Blocked: map[string]map[string]bool{}}
-	for _, x := range c18Who {
+	for _, x := range append(append([]string{}, c18Who...), "longA") {
 		m.Inbox[x] = map[string][]string{}
 		m.Blocked[x] = map[string]bool{}
 	}
@@ -86,6 +110,8 @@ func (C18) Events(env world.Env, mm mc.Model) []string {
 			add("Send:%s:%s:c2", x, t)
 		}
 	}
+	// a 32-byte recipient whose address string starts with A's address string
+	evs = append(evs, "Send:B:longA:c1", "Send:C:longA:c2")
 	// the sender spells its own (valid bech32) address in capitals
 	for _, x := range c18Who {
 		for _, t := range []string{"A", "B", "C"} {
@@ -151,6 +177,9 @@ func (C18) Apply(env world.Env, mm mc.Model, ev string) mc.Step {
 	target := func(t string) string {
 		if t == "name" {
 			return c18Name
+		}
+		if t == "longA" {
+			return c18LongAddr(w.A("A").Bech)
 		}
 		return w.A(t).Bech
 	}
